@@ -17,8 +17,16 @@ and state that the leaves partition the stored elements. What is NOT modelled (t
 scheduler and work stealing (that it drives the producer along *some* tree, runs every leaf exactly
 once, and publishes memory between threads correctly), and that its reducers combine per-leaf
 results in leaf order (used only for `any_split_tree_in_order`'s reading as `par_extend` order).
+
+The CONSUMER side (`Hb/Model/ParCollect.lean`, `Hb/Proofs/ParCollectSpec.lean`): `helpers::collect`
+(one `Vec` per leaf, `reduce` appends the right list after the left one), `par_extend` /
+`from_par_iter` (reserve rule + one `extend` per collected chunk), and the parallel set predicates /
+operations and `HashMap::par_eq` (`all` / `filter` / `chain` over the producer's leaves with
+`contains`) — for every split tree, every early-exit pattern a short-circuiting `all` may show
+(`StopsOk`), every lawful hasher: they equal their sequential counterparts (`par_*` theorems below).
 -/
 import Hb.Proofs.ParSpec
+import Hb.Proofs.ParCollectSpec
 namespace Hb.C19
 open Hb Hb.Par
 
@@ -111,6 +119,105 @@ example : invB sse table64 = true := by decide +kernel
 example : splitLeaves sse table64 tree3 = .ok [[0, 15], [16, 30], [48, 63]] := by rfl
 example : splitLeaves sse table32 tree3 = .ok [[1, 4], [17, 20, 31]] := by rfl
 
+/-! ### consumer side: collect / par_extend / from_par_iter / parallel set algebra -/
+
+section collect
+open Hb.ParCollect
+variable {env : Env} {H : Nat → Nat}
+
+/-- `helpers::collect`: for EVERY split tree over the input, the collected chunks concatenate to the
+    input — same order, nothing lost, nothing duplicated — and the reported length is the input's. -/
+theorem collect_preserves_order {α : Type} (tr : CTree) (xs : List α) :
+    (collectTree tr xs).flatten = xs ∧ (collect tr xs).2 = xs.length :=
+  ⟨collectTree_flatten tr xs, collect_len tr xs⟩
+
+/-- `par_extend` = sequential `extend` of the whole sequence, for every split tree: same final map (up
+    to permutation of buckets), same drops, same `len`; in particular the LAST value wins for a key that
+    occurs in two different leaves. (The capacity may differ — each chunk reserves on its own — but
+    `len ≤ capacity`; `capacity_differs_from_sequential` in ParCollectSpec is the evaluated witness.) -/
+theorem par_extend_is_sequential_extend (hc : CfgOk cfg) (hl : Lawful env H)
+    (halloc : ∀ j, env.allocOk j = true) (hnd : ∀ c e, env.dropPanics c e = false)
+    (tr : CTree) (items : List Elem) (w : World) (h : RI cfg H w.t) :
+    (∃ w', parExtend cfg env tr items w = .ok w' ∧ RI cfg H w'.t ∧
+      List.Perm w'.t.elems (AL.insertAll w.t.elems items) ∧
+      dropsOf w'.log = AL.insertDrops cfg w.t.elems items ++ dropsOf w.log ∧
+      w'.t.items = (AL.insertAll w.t.elems items).length ∧ w'.t.items ≤ w'.t.capacity) ∨
+    (∃ w', parExtend cfg env tr items w = .panic "capacity" w' ∧ RI cfg H w'.t) :=
+  parExtend_spec hc hl halloc hnd tr items w h
+
+theorem par_extend_last_wins (hc : CfgOk cfg) (hl : Lawful env H)
+    (halloc : ∀ j, env.allocOk j = true) (hnd : ∀ c e, env.dropPanics c e = false)
+    (tr : CTree) (pre post : List Elem) (e : Elem) (w w' : World) (h : RI cfg H w.t)
+    (hlast : ∀ x ∈ post, x.k ≠ e.k)
+    (hr : parExtend cfg env tr (pre ++ e :: post) w = .ok w') :
+    ∃ s, AL.find w'.t.elems e.k = some s ∧ s.vid = e.vid ∧ s.v = e.v :=
+  parExtend_last_wins hc hl halloc hnd tr pre post e w w' h hlast hr
+
+/-- `from_par_iter` builds the map sequential `from_iter` builds, for every split tree. -/
+theorem from_par_iter_is_from_iter (hc : CfgOk cfg) (hl : Lawful env H)
+    (halloc : ∀ j, env.allocOk j = true) (hnd : ∀ c e, env.dropPanics c e = false)
+    (tr : CTree) (items : List Elem) (w : World) (h : RI cfg H w.t) :
+    (∃ w', fromParIter cfg env tr items w = .ok w' ∧ RI cfg H w'.t ∧
+      List.Perm w'.t.elems (AL.insertAll [] items) ∧
+      dropsOf w'.log =
+        AL.insertDrops cfg [] items ++ dropEvs cfg w.t.elems.reverse ++ dropsOf w.log) ∨
+    (∃ w', fromParIter cfg env tr items w = .panic "capacity" w' ∧ w'.t = Raw.new cfg.W) :=
+  fromParIter_spec hc hl halloc hnd tr items w h
+
+/-- The order of the reduce matters (the theorem above is not vacuous): appending the LEFT list after
+    the right one makes the first value win on a concrete two-leaf input. -/
+theorem reversed_reduce_breaks_last_wins :
+    exKV (parExtendList enCfg glEnv (collectTree' (.node 1 .leaf .leaf) dupItems)
+      { t := Raw.new 16 }) = some [(1, 12, 21, 100)] ∧
+    exKV (parExtend enCfg glEnv (.node 1 .leaf .leaf) dupItems { t := Raw.new 16 }) =
+      some [(1, 11, 22, 200)] ∧
+    exKV (Map.extend enCfg glEnv dupItems { t := Raw.new 16 }) = some [(1, 11, 22, 200)] :=
+  ⟨reversed_reduce_violates_last_wins.2.1, reversed_reduce_violates_last_wins.2.2.1,
+   reversed_reduce_violates_last_wins.2.2.2.1⟩
+
+/-- `par_is_subset` / `par_is_disjoint` / `par_eq` (sets) = their sequential counterparts = the
+    mathematical answer, for every producer tree and every legal early-exit pattern. -/
+theorem par_set_predicates (hc : CfgOk cfg) (hl : Lawful env H) {b : Raw} (w : World)
+    (ha : InvL cfg H w.t) (hb : InvL cfg H b) (tr : Par.Tree) (stops : List Nat) :
+    ((∀ ls, parLeaves cfg w.t tr = .ok ls →
+        StopsOk (fun e : Elem => decide (e.k ∈ keys b) == true) ls stops) →
+      (∃ r w' w'', parIsSubset cfg env b tr stops w = .ok (r, w') ∧
+        Set.isSubset cfg env b w = .ok (r, w'') ∧ w'.t = w.t ∧ w'.log = w.log ∧
+        (r = true ↔ ∀ k ∈ keys w.t, k ∈ keys b)) ∧
+      (∃ r w' w'', parSetEq cfg env b tr stops w = .ok (r, w') ∧
+        Set.setEq cfg env b w = .ok (r, w'') ∧ w'.t = w.t ∧ w'.log = w.log ∧
+        (r = true ↔ ∀ k, k ∈ keys w.t ↔ k ∈ keys b))) ∧
+    ((∀ ls, parLeaves cfg w.t tr = .ok ls →
+        StopsOk (fun e : Elem => decide (e.k ∈ keys b) == false) ls stops) →
+      ∃ r w' w'', parIsDisjoint cfg env b tr stops w = .ok (r, w') ∧
+        Set.isDisjoint cfg env b w = .ok (r, w'') ∧ w'.t = w.t ∧ w'.log = w.log ∧
+        (r = true ↔ ∀ k ∈ keys w.t, k ∉ keys b)) :=
+  ⟨fun hs => ⟨parIsSubset_spec hc hl w ha hb tr stops hs, parSetEq_spec hc hl w ha hb tr stops hs⟩,
+   fun hs => parIsDisjoint_spec hc hl w ha hb tr stops hs⟩
+
+/-- `par_difference` yields exactly what sequential `difference` yields (same list, same order), for
+    every producer tree; `par_intersection` yields the same keys as `intersection`. -/
+theorem par_set_operations (hc : CfgOk cfg) (hl : Lawful env H) {b : Raw} (w : World)
+    (ha : InvL cfg H w.t) (hb : InvL cfg H b) (tr : Par.Tree) :
+    (∃ yss w' w'', parDifference cfg env b tr w = .ok (yss, w') ∧
+      Set.difference cfg env b w = .ok (yss.flatten, w'') ∧ yss.flatten = ss_diff w.t b ∧
+      w'.t = w.t ∧ w'.log = w.log) ∧
+    (∃ yss w' ys w'', parIntersection cfg env b tr w = .ok (yss, w') ∧
+      Set.intersection cfg env b w = .ok (ys, w'') ∧
+      (yss.flatten.map (·.k)).Perm (ys.map (·.k)) ∧
+      yss.flatten = w.t.elems.filter (fun e => decide (e.k ∈ keys b)) ∧
+      (yss.flatten.map (·.k)).Nodup ∧ w'.t = w.t ∧ w'.log = w.log) :=
+  ⟨parDifference_spec hc hl w ha hb tr, parIntersection_spec hc hl w ha hb tr⟩
+
+end collect
+
+#print axioms collect_preserves_order
+#print axioms par_extend_is_sequential_extend
+#print axioms par_extend_last_wins
+#print axioms from_par_iter_is_from_iter
+#print axioms reversed_reduce_breaks_last_wins
+#print axioms par_set_predicates
+#print axioms par_set_operations
 #print axioms every_element_once
 #print axioms any_split_tree
 #print axioms split_is_partition
